@@ -57,7 +57,10 @@ RAW["colB"] = {"type": "record", "name": "pal.Palette", "fields": [{"name": "mai
                                                                {"name": "others", "type": {"type": "array", "items": "Color"}}, {"name": "m", "type": {"type": "map", "values": "pal.Color"}}]}
 DATA["colA"] = [{"main": "GREEN", "others": ["RED", "GREEN", "BLUE"], "m": {"k": "BLUE"}}]
 DATA["colB"] = [{"main": "KEY", "others": ["CYAN", "MAGENTA", "YELLOW"], "m": {"k": "YELLOW"}}]
-KINDS = ["swrite", "sread", "validate", "cwrite", "cread", "jwrite", "jread", "parse", "canon", "fingerprint", "sread_rs"]
+KINDS = ["swrite", "sread", "validate", "cwrite", "cread", "jwrite", "jread", "parse", "canon", "fingerprint", "sread_rs", "swrite_bad", "sread_short", "validate_raise"]
+FAILING = ("swrite_bad", "sread_short", "validate_raise")
+BAD = {"dec_hi": "not a decimal", "dec_lo": 5.5, "fdec": b"x", "rec": {"id": "x", "tags": [], "m": {}, "e": "A"}, "logical": {"d": "nope", "ts": 1, "u": "u", "dec": D("1"), "dec2": D("1")},
+       "union": 12.5, "list": {"v": 1, "next": {"v": "x"}}, "colA": {"main": "KEY", "others": [], "m": {}}, "colB": {"main": "RED", "others": [], "m": {}}}
 JSON_OK = {"rec", "union", "dec_lo", "dec_hi", "logical", "colA", "colB"}
 _CHECK = None
 
@@ -158,8 +161,9 @@ class C18(Check):
         "with and without logical types) on distinct streams sharing parsed schema objects, from a family of schemas (decimals "
         "of different precision, records with logical types, unions, recursion) x data. Each operation first runs alone (its "
         "sequential result and its number of yield points). Then, under the harness-owned scheduler, EVERY schedule with one "
-        "preemption is enumerated (for each starting thread, after each of its k yield points; all k when <= 160, otherwise all k "
-        "inside the modules owning module-level state plus an even spread), plus drawn schedules with up to 4 preemptions. "
+        "preemption is enumerated (for each starting thread, after each of its k yield points; all k when <= 160 (thorough: 500), "
+        "otherwise the first and last 40 plus an even stride whose offset is drawn per case), a 7x7 grid of schedules with two "
+        "preemptions, cold-start schedules in a fresh process, plus drawn schedules with up to 4 preemptions. "
         "Oracle: each thread's result (bytes / value / exception class) equals its sequential result. evaluations = operation "
         "tuples; coverage.schedules counts executed schedules. Non-trivial = a preemption was taken while another thread was "
         "inside a fastavro frame. Distinct by digest."
@@ -169,7 +173,7 @@ class C18(Check):
         "at most 4 preemptions per schedule; free-running threads are not sampled because they decide nothing",
         "generate_* is excluded: it draws from the process-wide random module by design",
     ]
-    required_labels = ["ops:2", "ops:3", "kind:sread", "kind:swrite", "kind:validate", "kind:parse", "kind:jwrite", "kind:cread", "logical", "shared-schema", "multi-preemption", "preempted-inside", "cold-start", "kind:fingerprint", "kind:sread_rs", "double-preemption"]
+    required_labels = ["ops:2", "ops:3", "kind:sread", "kind:swrite", "kind:validate", "kind:parse", "kind:jwrite", "kind:cread", "logical", "shared-schema", "multi-preemption", "preempted-inside", "cold-start", "kind:fingerprint", "kind:sread_rs", "double-preemption", "failing-operation"]
     quick = (6, 8)
     thorough = (120, 16)
 
@@ -209,7 +213,7 @@ class C18(Check):
             extra = []
             for _ in range(d.rng(0, 3)):
                 extra.append(sorted(d.rng(1, 400) for _ in range(d.rng(2, 4))))
-            return {"ops": ops, "multi": extra, "cold": d.p(0.15)}
+            return {"ops": ops, "multi": extra, "cold": d.p(0.15), "offset": d.rng(0, 63), "cap": 160 if tier == "quick" else 500}
 
         return cases()
 
@@ -223,6 +227,9 @@ class C18(Check):
         return [c for i, c in enumerate(self.fixed_cases(tier)) if i % nshards == shard]
 
     def fixed_cases(self, tier):
+        yield {"ops": [{"kind": "swrite_bad", "schema": "rec", "datum": 0, "form": "parsed"}, {"kind": "swrite", "schema": "rec", "datum": 0, "form": "parsed"}], "multi": []}
+        yield {"ops": [{"kind": "validate_raise", "schema": "union", "datum": 0, "form": "parsed"}, {"kind": "validate", "schema": "rec", "datum": 1, "form": "parsed"}], "multi": []}
+        yield {"ops": [{"kind": "sread_short", "schema": "list", "datum": 0, "form": "parsed"}, {"kind": "sread", "schema": "list", "datum": 0, "form": "parsed"}], "multi": [[3, 30]]}
         yield {"ops": [{"kind": "sread", "schema": "dec_hi", "datum": 0, "form": "parsed"}, {"kind": "sread", "schema": "dec_lo", "datum": 0, "form": "parsed"}], "multi": []}
         yield {"ops": [{"kind": "sread", "schema": "logical", "datum": 0, "form": "parsed"}, {"kind": "sread", "schema": "logical", "datum": 0, "form": "parsed"}], "multi": [[5, 40, 80]]}
         yield {"ops": [{"kind": "swrite", "schema": "dec_hi", "datum": 0, "form": "parsed"}, {"kind": "swrite", "schema": "dec_lo", "datum": 0, "form": "parsed"}], "multi": []}
@@ -278,6 +285,18 @@ class C18(Check):
         def validate():
             return fastavro.validate(datum, schema, raise_errors=False)
 
+        # operations that raise midway: their error paths run interleaved with the other thread's work
+        def swrite_bad():
+            f = io.BytesIO()
+            fastavro.schemaless_writer(f, schema, BAD[sk])
+            return f.getvalue()
+
+        def sread_short():
+            return tagged.dumps(fastavro.schemaless_reader(io.BytesIO(enc[:-1]), schema))
+
+        def validate_raise():
+            return fastavro.validate(BAD[sk], schema, raise_errors=True)
+
         def cwrite():
             f = io.BytesIO()
             fastavro.writer(f, schema, [datum, datum], sync_marker=MARK, codec="deflate")
@@ -303,7 +322,7 @@ class C18(Check):
         def fingerprint():
             return fastavro.schema.fingerprint(pre["canon"], "CRC-64-AVRO")
 
-        return {"sread_rs": sread_rs, "fingerprint": fingerprint, "swrite": swrite, "sread": sread, "validate": validate, "cwrite": cwrite, "cread": cread, "jwrite": jwrite, "jread": jread, "parse": parse, "canon": canon}[kind]
+        return {"swrite_bad": swrite_bad, "sread_short": sread_short, "validate_raise": validate_raise, "sread_rs": sread_rs, "fingerprint": fingerprint, "swrite": swrite, "sread": sread, "validate": validate, "cwrite": cwrite, "cread": cread, "jwrite": jwrite, "jread": jread, "parse": parse, "canon": canon}[kind]
 
     def run_case(self, case):
         ops = case["ops"]
@@ -311,6 +330,8 @@ class C18(Check):
         fns = []
         for op in ops:
             labels.add("kind:" + op["kind"])
+            if op["kind"] in FAILING:
+                labels.add("failing-operation")
             if op["schema"] in ("dec_hi", "dec_lo", "fdec", "logical"):
                 labels.add("logical")
             fns.append(self._fn(op))
@@ -338,7 +359,7 @@ class C18(Check):
         n = len(fns)
         for first in range(n):
             total = steps[first]
-            ks = self._points(total)
+            ks = self._points(total, case.get("offset", 0) + first, case.get("cap", 160))
             for k in ks:
                 s = Scheduler(fns, first, [k])
                 res = s.run()
@@ -388,11 +409,13 @@ class C18(Check):
                 check(res, f"start={first} preemptions-at={sw}")
         return labels
 
-    def _points(self, total):
-        if total <= 160:
+    def _points(self, total, offset=0, cap=160):
+        """All yield points when there are at most `cap`; otherwise the first and last 40 plus every (total // cap)-th one,
+        starting at a per-case offset so that different cases of a run cover different residues."""
+        if total <= cap:
             return list(range(1, total))
-        step = max(1, total // 160)
-        return sorted(set(range(1, total, step)) | set(range(1, min(total, 40))) | set(range(max(1, total - 40), total)))
+        step = max(1, total // cap)
+        return sorted(set(range(1 + offset % step, total, step)) | set(range(1, min(total, 40))) | set(range(max(1, total - 40), total)))
 
     def nontrivial(self, labels):
         return "preempted-inside" in labels
